@@ -62,7 +62,7 @@ func TestC20AtEnd(t *testing.T) {
 			time.Sleep(100 * time.Microsecond)
 		}
 		cerr := w.pr.CancelJob(job.ID)
-		v, ok := w.waitDone(job.ID, kt+20*time.Second)
+		v, ok := w.waitReported(job.ID, kt+20*time.Second)
 		if !ok {
 			rt.Fatalf("the job does not finish")
 		}
